@@ -40,8 +40,13 @@ pub fn run(ctx: &Ctx) -> i32 {
                 Fmt::F64 => cfg.parse64,
             };
             let before = count();
-            let bits = f(int, frac, exp);
+            let bits = crate::runner::catch(|| f(int, frac, exp));
             let delta = count() - before;
+            if bits.is_err() {
+                // a panic on valid input is C04's business; the allocation count of an unwinding call is not meaningful
+                stats.count("panicked-calls-skipped(see C04)");
+                continue;
+            }
             std::hint::black_box(bits);
             let slow_here = if cfg.compact { pc.slow } else { pd.slow };
             if !cfg.alloc && delta != 0 {
